@@ -222,7 +222,7 @@ class RealFloat__round_at_stochastic(Contract):
     # stays transparent)
     options = {'call_counts': {'RealFloat._generate_randbits': 1}, 'bounded_fallback': 12, 'bounded_ms': 60000,
                'split_heavy': True, 'opaque': {'rnd_at': [['self', 'p', 'n'], 'tuple[int, int, bool, bool]']},
-               'symbolic_tier': 'thorough'}
+               'symbolic_tier': 'thorough', 'optional_symbolic': True}
 
     def pre(self, p, n, emin, rm, num_randbits, rng, exact):
         return {
@@ -301,7 +301,6 @@ class RealFloat_round(Contract):
               'num_randbits': 'int | None', 'rng': 'RNG | None', 'exact': 'bool'}
     returns = 'RealFloat'
     properties = ['C01', 'C17']
-    split = ['rm']
 
     def pre(self, max_p, min_n, rm, num_randbits, rng, exact):
         return {
